@@ -198,7 +198,7 @@ def check_composition(ctx, rng, wtree):
 
 
 def make_wtree():
-    root = env.mkscratch('c20-')
+    _base, root = env.mknested('c20-')
     for n in ('A', 'AA', 'x41', 'a', '1', 'u0041', 'A1', '101', 'x', '\t', '\\x41', 'N', '*'):
         open(os.path.join(root, n), 'w').close()
     return root
@@ -235,7 +235,7 @@ def run(ctx):
                 check_composition(ctx, rng, wtree if k % 3 == 0 else None)
         ctx.count('compositions', k)
     finally:
-        shutil.rmtree(wtree, ignore_errors=True)
+        shutil.rmtree(wtree[:-len('/w/x/y/root')], ignore_errors=True)
 
 
 def replay(ctx, w):
@@ -243,5 +243,5 @@ def replay(ctx, w):
     try:
         check_text(ctx, w['pattern'], wtree)
     finally:
-        shutil.rmtree(wtree, ignore_errors=True)
+        shutil.rmtree(wtree[:-len('/w/x/y/root')], ignore_errors=True)
     return ctx.violations or None
